@@ -1,6 +1,7 @@
 import Capella.Driver.Util
 import Capella.Model.Xml
 import Capella.Model.XmlParse
+import Capella.Model.XmlSpec
 namespace Capella.Driver.Xml
 open Lean Capella.Driver Capella.Xml
 
@@ -120,6 +121,21 @@ def handle (op : String) (j : Json) : Except String Json := do
       let cj (c : Comment) : Json := Json.arr #[jstr c.text, jopt c.tail]
       pure (Json.mkObj [("doc", Json.mkObj [("pre", Json.arr (d.pre.map cj).toArray),
         ("root", elemJson d.root), ("post", Json.arr (d.post.map cj).toArray)])])
+  | "xml.roundtrip" =>
+    -- the statements of the round-trip theorems, evaluated on one document
+    let ll ← getNat j "ll"
+    let d ← docOf (← j.getObjVal? "doc")
+    let out := serialize ll true [] true d
+    let toks := lex out
+    let lexOk := toks == some (toksDoc d)
+    let built := (build BState.init (toksDoc d)).bind BState.finish
+    let buildOk := (built.map fun r => toString (repr r)) == some (toString (repr (rawDoc d)))
+    let res := (resolve [] (rawDoc d).root).map fun r => toString (repr r)
+    let resOk := res == some (toString (repr (canonElem d.root)))
+    let parseOk := ((parse out).map fun r => toString (repr r)) == some (toString (repr (canonDoc d)))
+    let idem := (serialize ll true [] true (canonDoc d)) == out
+    pure (Json.mkObj [("wf", wfDoc d), ("lex", lexOk), ("build", buildOk), ("resolve", resOk),
+      ("parse", parseOk), ("canon_same_bytes", idem)])
   | "xml.unescape" =>
     let s ← getStr j "s"
     let strict ← getBool j "strict"
